@@ -450,6 +450,27 @@ class _CanonicalBranches(ast.NodeTransformer):
                             out.append(_Sub().visit(b))
                     continue
             unrolled = _CanonicalBranches._unroll_name_loop(st)
+            if unrolled is None and isinstance(st, ast.For) and isinstance(st.iter, ast.Name):
+                # `pairs = ((a, b), (b, c))` ... `for x, y in pairs:` - the loop runs over the literal the name was bound to,
+                # when nothing in between rebinds the name or a name the literal reads
+                lit = None
+                between = []
+                for prev in reversed(out):
+                    if isinstance(prev, ast.Assign) and len(prev.targets) == 1 and isinstance(prev.targets[0], ast.Name) and \
+                            prev.targets[0].id == st.iter.id and isinstance(prev.value, (ast.Tuple, ast.List)):
+                        lit = prev.value
+                        break
+                    if not isinstance(prev, (ast.Assign, ast.AugAssign, ast.Expr)):
+                        break           # only straight-line code between the binding and the loop
+                    between.append(prev)
+                if lit is not None:
+                    read = {n.id for n in ast.walk(lit) if isinstance(n, ast.Name)} | {st.iter.id}
+                    stored = {n.id for b in between for n in ast.walk(b)
+                              if isinstance(n, ast.Name) and not isinstance(n.ctx, ast.Load)}
+                    if not (read & stored):
+                        st2 = copy.copy(st)
+                        st2.iter = copy.deepcopy(lit)
+                        unrolled = _CanonicalBranches._unroll_name_loop(st2)
             if unrolled is not None:
                 out.extend(unrolled)
                 continue
@@ -584,7 +605,37 @@ class _CanonicalBranches(ast.NodeTransformer):
             i += 1
         return out
 
+    def _sink_inits(self, stmts):
+        """`X = []` (or {} / list() / dict()) directly followed by `if c: ... for ...: X.append(..) ...` without else, c not
+        reading X: the initialisation is made in both arms (`if c: X = []; ... else: X = []`), so that the loop and its
+        container stand in one block - where an accumulating loop becomes a comprehension"""
+        out = list(stmts)
+        i = 0
+        while i < len(out) - 1:
+            st, nx = out[i], out[i + 1]
+            name = None
+            if isinstance(st, ast.Assign) and len(st.targets) == 1 and isinstance(st.targets[0], ast.Name):
+                v0 = st.value
+                empty = (isinstance(v0, (ast.List, ast.Dict)) and not (getattr(v0, "elts", None) or getattr(v0, "keys", None))) or \
+                    (isinstance(v0, ast.Call) and isinstance(v0.func, ast.Name) and v0.func.id in ("list", "dict")
+                     and not v0.args and not v0.keywords)
+                if empty:
+                    name = st.targets[0].id
+            if name and isinstance(nx, ast.If) and not nx.orelse and not self._mentions(nx.test, name) and \
+                    any(isinstance(b, ast.For) and self._mentions(b, name) for b in nx.body) and \
+                    not any(isinstance(b, (ast.FunctionDef, ast.AsyncFunctionDef, ast.ClassDef)) for b in nx.body):
+                nx.body = [copy.deepcopy(st)] + list(nx.body)
+                nx.orelse = [copy.deepcopy(st)]
+                del out[i]
+                continue
+            i += 1
+        return out
+
     def generic_visit(self, node):
+        for fld in ("body", "orelse", "finalbody"):
+            b = getattr(node, fld, None)
+            if isinstance(b, list) and len(b) > 1 and isinstance(b[0], ast.stmt):
+                setattr(node, fld, self._sink_inits(b))
         super().generic_visit(node)
         for fld in ("body", "orelse", "finalbody"):
             b = getattr(node, fld, None)
@@ -1072,14 +1123,25 @@ class Repo:
             if isinstance(n, ast.Name) and isinstance(n.ctx, (ast.Store, ast.Del)) and not getattr(n, "_caller_name", False):
                 local.add(n.id)
         ren = {n_: prefix + n_ for n_ in local}
+        # a parameter that the helper never rebinds and that is passed a plain name of the caller IS that name inside the
+        # body (no copy is made by a call): element stores into it are stores into the caller's object, under its own name
+        rebound = {n.id for n in ast.walk(ast.Module(body=body, type_ignores=[]))
+                   if isinstance(n, ast.Name) and isinstance(n.ctx, (ast.Store, ast.Del)) and not getattr(n, "_caller_name", False)}
+        direct = {n_: bound[n_].id for n_ in allp if isinstance(bound[n_], ast.Name) and n_ not in rebound
+                  and bound[n_].id not in local - {n_}}
         for n in ast.walk(ast.Module(body=body, type_ignores=[])):
             if isinstance(n, ast.Name) and not getattr(n, "_caller_name", False):
-                if n.id in ren:
+                if n.id in direct:
+                    n.id = direct[n.id]
+                    n._caller_name = True
+                elif n.id in ren:
                     n.id = ren[n.id]
                 elif selfname is not None and n.id == selfname and isinstance(recv, ast.Name):
                     n.id = recv.id
         pro = []
         for n_ in allp:
+            if n_ in direct:
+                continue
             asg = ast.Assign(targets=[ast.Name(id=ren[n_], ctx=ast.Store())], value=copy.deepcopy(bound[n_]))
             ast.copy_location(asg, call)
             pro.append(asg)
